@@ -37,6 +37,8 @@ type verifier struct {
 	opaqueStructs map[string]bool
 	boxTags       map[string][]string
 	knownClause   map[string]bool
+	tabs          *tables
+	genFn         map[string]bool
 	curPkg        string // package path of the function being verified (affects Cursor mapping)
 }
 
@@ -48,7 +50,7 @@ func newVerifier(repo, specDir string) (*verifier, error) {
 		sortCache: map[string]*Sort{}, structSorts: map[string]*Sort{}, opaqueSorts: map[string]*Sort{},
 		mapSorts: map[string]*Sort{}, spkgs: map[string]*ssa.Package{}, boxTags: map[string][]string{},
 		opaqueStructs: map[string]bool{
-			"github.com/ChrisTrenkamp/xsel/grammar/parser/bsr.BSR":    true,
+			"github.com/ChrisTrenkamp/xsel/grammar/parser/bsr.Set":    true,
 			"github.com/ChrisTrenkamp/xsel/grammar/token.Token":       true,
 			"github.com/ChrisTrenkamp/xsel/grammar/lexer.Lexer":       true,
 			"github.com/ChrisTrenkamp/xsel/grammar/parser/slot.Label": true,
@@ -118,6 +120,23 @@ func newVerifier(repo, specDir string) (*verifier, error) {
 				}
 			}
 		}
+	}
+	// tables of the generated grammar and the handler registry -> prelude module "gentables"
+	v.tabs = v.loadTables()
+	v.genFn = map[string]bool{}
+	for _, f := range v.tabs.handlers {
+		v.genFn["fn_"+sanitize(fnKey(f))] = true
+	}
+	// struct sorts the prelude refers to exist in every query
+	for _, tn := range [][2]string{{"/grammar/parser/bsr", "BSR"}, {"/exec", "ContextSettings"}, {"/exec", "exprContext"}, {"/grammar", "Grammar"}, {"/exec", "XmlName"}} {
+		if sp := v.spkgs[xselPath+tn[0]]; sp != nil {
+			if tm := sp.Type(tn[1]); tm != nil {
+				v.sortOf(tm.Type())
+			}
+		}
+	}
+	if err := v.prelude.addModule("gentables", v.genTables()); err != nil {
+		return nil, err
 	}
 	// contract files: comment-only zz_contracts_verif.go in each repo package
 	for _, p := range pkgs {
